@@ -10,7 +10,8 @@ PID = "C03"
 
 
 def gen(rng, sid, N0, R, njoins, leave):
-    d = "c03d%d" % sid
+    # some DMap names start with the fragment-name prefix itself (D41: such a DMap lost its keys on every hand-over)
+    d = ("dmap.c03d%d" if sid % 4 == 1 else "c03d%d") % sid
     nkeys = rng.randrange(30, 70)
     keys = [dmaplib.hx("%s-k%02d" % (d, i)) for i in range(nkeys)]
     ver = {k: 0 for k in keys}
@@ -37,11 +38,21 @@ def gen(rng, sid, N0, R, njoins, leave):
         ver[k] += 1
         ops.append({"op": "put", "c": "emb%d" % rng.choice(live), "d": d, "k": k, "v": dmaplib.hx("%s#%d" % (k[-6:], ver[k]) + "." * 40)})
     ops += burst(rng.randrange(20, 60))
+    # keys that expire while their partition is being handed over (the previous owner still holds them when their
+    # deadline passes): D42 - a previous owner's eviction worker blocked the fragment for ~12 s per expired key
+    expiring = [dmaplib.hx("%s-e%02d" % (d, i)) for i in range(12)] if sid % 3 == 2 else []
     for j in range(njoins):
+        if j == 0:
+            for k in expiring:
+                ops.append({"op": "put", "c": "emb%d" % rng.choice(live), "d": d, "k": k, "v": dmaplib.hx("soon gone"), "px": 300, "_expiring": True})
         ops.append({"op": "join"})
         live.append(len(live))
         # after the routing push, before any fragment has moved
         ops.append({"op": "push"})
+        if j == 0 and expiring:
+            ops.append({"op": "sleep", "ms": 450})
+            for k in expiring:
+                ops.append({"op": "get", "c": "emb%d" % rng.choice(live), "d": d, "k": k, "_expiring": True})
         ops += burst(rng.randrange(8, 25))
         # between table moves: single balancer runs of single members
         for _ in range(rng.randrange(0, 4)):
@@ -64,7 +75,7 @@ def gen(rng, sid, N0, R, njoins, leave):
     ops.append({"op": "scan", "c": "cc", "d": d})
     ops.append({"op": "scan", "c": "emb%d" % live[0], "d": d})
     cluster = {"members": N0, "replicas": R, "partitions": rng.choice([7, 13]), "table": rng.choice([256, 512]), "evict_workers": 1}
-    model = (sid % 2 == 0) and not leave
+    model = (sid % 2 == 0) and not leave and not expiring
     if model:
         # model correspondence: a white-box dump after every operation; no timer-driven balancer / routing push, so that
         # every step between two dumps is one operation of the scenario
@@ -78,6 +89,9 @@ def gen(rng, sid, N0, R, njoins, leave):
         ops = ops2
     return {"id": sid, "cluster": cluster, "ops": ops, "_R": R, "_nlive": len(live), "_joins": njoins, "_leave": leave,
             "_model": model, "_N0": N0}
+
+
+STALL_MS = 5000      # no single Put/Get/Delete takes that long in-process unless it waits for a lock or a network timeout
 
 
 CRASH_POINTS = [("move.exported", "self"),      # the sender is lost before anything was sent
@@ -220,6 +234,12 @@ def judge(sc, obs):
     unstable_after_stop = False
     for i, (op, ob) in enumerate(zip(sc["ops"], obs)):
         o, r = op["op"], ob.get("r")
+        if o in ("put", "get", "del") and not unstable_after_stop and ob.get("t1", 0) - ob.get("t0", 0) > STALL_MS:
+            return (i, "%s through %s took %d ms during the hand-over (returned %s)" % (o, op.get("c"), ob["t1"] - ob["t0"], r))
+        if op.get("_expiring"):
+            if o == "get" and r not in ("notfound",):
+                return (i, "Get of a key whose deadline passed 150 ms ago returned %s during the hand-over" % r)
+            continue
         if o == "join" and r != "ok":
             return ("env", "join failed: %s" % r)
         if o == "waitstable":
@@ -285,8 +305,11 @@ def judge(sc, obs):
             exp = sorted(ref)
             if ambiguous or d40:
                 continue
-            if sorted(ob.get("keys") or []) != exp:
-                got = ob.get("keys") or []
+            # a scan may still list a key whose deadline has passed but which has not been evicted yet (C09 enumerates the
+            # operations that must not observe it; scans are not among them, C12 speaks of deleted and never stored keys)
+            gone = {o["k"] for o in sc["ops"] if o.get("_expiring")}
+            if sorted(k for k in (ob.get("keys") or []) if k not in gone) != exp:
+                got = [k for k in (ob.get("keys") or []) if k not in gone]
                 return (i, "scan through %s yields %d keys (%d distinct), %d are live; missing %s, extra %s" % (
                     op["c"], len(got), len(set(got)), len(exp), sorted(set(exp) - set(got))[:3], sorted(set(got) - set(exp))[:3]))
     return None
